@@ -59,7 +59,11 @@ use crate::internal::cache_padded::CachePadded;
 use std::collections::VecDeque;
 use std::fmt;
 use std::task::{Context, Poll, Waker};
-use std::time::{Duration, Instant};
+use std::time::Duration;
+#[cfg(not(all(excsn_fibre_verif, not(loom))))]
+use std::time::Instant;
+#[cfg(all(excsn_fibre_verif, not(loom)))]
+use crate::internal::sync::Instant;
 
 use crate::internal::sync::{thread, AtomicU8, Mutex, Ordering, Thread};
 
